@@ -3,9 +3,13 @@ goals for every objective value) and direct oracle (the identities evaluated in 
 import math
 from fractions import Fraction
 
-from harness.core import REAL_AXIOMS
+from harness.core import REAL_AXIOMS, translated_specs
 
 PROP = "C16"
+# second tie (notes/TRANSLATOR.md, "Benchmark functions"): DTLZI-IV.evaluate, ZDT1.evaluate / eval_g / eval_h and
+# BiObjectiveTestProblem.evaluate are translated from the current source by tools/py2coq_bench.py on every run and proved
+# equal to the models of Model/ParetoBench.v for every m and every vector (GenProofs/ParetoEquiv.v)
+TRANSLATED = translated_specs("ParetoGen")
 THEOREMS = {"Artap.Props.C16": [
     "C16_dtlz1_sum", "C16_dtlz2_norm", "C16_dtlz3_norm", "C16_dtlz4_norm", "C16_distance_variables",
     "C16_pareto_set_images", "C16_dtlz1_pareto_set_image", "C16_zdt1_identity", "C16_zdt1_well_defined",
